@@ -70,4 +70,16 @@ var props = map[string]Prop{
 			inj("golist", "internal/goembed", "zz_verif_c16_test.go", "", "TestVerifC16GoList", 60, 2500, 6, 16),
 		},
 	},
+	"C07": {
+		ID: "C07", Level: "exploration",
+		Rule: "rapid generates Go source for 2-3 packages: named, alias, generic and interface declarations, variables of composite type expressions from a recursive grammar, verbatim copies of an expression in another package, one-attribute near-miss mutants (field name/tag/embeddedness/order/exportedness, array length, chan direction, variadic vs slice, parameter order, result count, method name/result, type argument, other named type, alias) and function-local types with equal names in different functions and scopes; the source is type-checked in-process and for every pair of pool types Builder.TypeName equality is compared with types.Identical (both directions). Non-trivial pair: one side is a mutant, a copy, an alias, or both are local types. Distinct by hash of both type strings and origins.",
+		Assumptions: []string{
+			"go/types.Identical is the reference for type identity",
+			"the in-process part queries abi.Builder.TypeName on the go/types types (64-bit sizes), as ssa/abitype.go does for descriptor globals; the compiled end-to-end part (assertions, type switches, interface-keyed maps) is covered by the generated-program job when built",
+			"generated source that go/types rejects is skipped and counted (generator limitation)",
+		},
+		Jobs: []Job{
+			inj("typename", "ssa/abi", "zz_verif_c07_test.go", "", "TestVerifC07TypeNameIdentity", 5000, 150000, 4, 16),
+		},
+	},
 }
